@@ -13,26 +13,27 @@ import (
 
 // Signatures of known findings that have a generator switch (see Case.Avoid).
 const (
-	sigJSONNullPanic       = "C07/panic/json-index-null-json"
-	sigAllEmptyArray       = "C07/rows-missing/all-on-empty-array"
-	sigInDuplicates        = "C07/rows-duplicated/in-list-duplicates"
-	sigNlikeNull           = "C07/rows-missing/nlike-null"
-	sigJSONPathScanErr     = "C07/error-only-twin/json-path-on-non-object"
-	sigOrBranch            = "C07/rows-missing/or-branch-ignored"
-	sigInListOrder         = "C07/order-not-sorted/in-list-order"
-	sigDeleteDeleted       = "C07/panic/delete-of-deleted-document-with-index"
-	sigInUnclosed          = "C07/query-panic/in-iterator-left-open"
-	sigBlobMatcher         = "C07/error-only-indexed/blob-value-matcher"
-	sigRelNullOwner        = "C07/rows-missing/relation-filter-inverted-join-null-relation"
-	sigJSONRootOnLeaves    = "C07/rows-missing/json-root-condition-matched-on-leaves"
-	sigCompositeArrayEmpty = "C07/rows-missing/composite-index-array-null-or-empty"
-	sigInNullUnique        = "C07/rows-missing/in-null-on-unique-index"
-	sigCompositeArrayDup   = "C07/rows-duplicated/composite-index-array-order-only"
-	sigShowDeletedOrder    = "C07/order-not-sorted/show-deleted-with-index-order"
+	sigJSONNullPanic          = "C07/panic/json-index-null-json"
+	sigAllEmptyArray          = "C07/rows-missing/all-on-empty-array"
+	sigInDuplicates           = "C07/rows-duplicated/in-list-duplicates"
+	sigNlikeNull              = "C07/rows-missing/nlike-null"
+	sigJSONPathScanErr        = "C07/error-only-twin/json-path-on-non-object"
+	sigOrBranch               = "C07/rows-missing/or-branch-ignored"
+	sigInListOrder            = "C07/order-not-sorted/in-list-order"
+	sigDeleteDeleted          = "C07/panic/delete-of-deleted-document-with-index"
+	sigInUnclosed             = "C07/query-panic/in-iterator-left-open"
+	sigBlobMatcher            = "C07/error-only-indexed/blob-value-matcher"
+	sigRelNullOwner           = "C07/rows-missing/relation-filter-inverted-join-null-relation"
+	sigJSONRootOnLeaves       = "C07/rows-missing/json-root-condition-matched-on-leaves"
+	sigCompositeArrayEmpty    = "C07/rows-missing/composite-index-array-null-or-empty"
+	sigInNullUnique           = "C07/rows-missing/in-null-on-unique-index"
+	sigCompositeArrayDup      = "C07/rows-duplicated/composite-index-array-order-only"
+	sigInvertedJoinDropsConds = "C07/rows-extra/inverted-join-drops-sibling-conditions"
+	sigShowDeletedOrder       = "C07/order-not-sorted/show-deleted-with-index-order"
 )
 
 var switchSigs = []string{sigJSONNullPanic, sigAllEmptyArray, sigInDuplicates, sigNlikeNull, sigJSONPathScanErr,
-	sigOrBranch, sigInListOrder, sigDeleteDeleted, sigInUnclosed, sigBlobMatcher, sigRelNullOwner, sigScanOrderLaterKey, sigJSONRootOnLeaves, sigCompositeArrayEmpty, sigCompositeArrayDup, sigInNullUnique, sigShowDeletedOrder}
+	sigOrBranch, sigInListOrder, sigDeleteDeleted, sigInUnclosed, sigBlobMatcher, sigRelNullOwner, sigScanOrderLaterKey, sigJSONRootOnLeaves, sigCompositeArrayEmpty, sigCompositeArrayDup, sigInvertedJoinDropsConds, sigInNullUnique, sigShowDeletedOrder}
 
 func pick[T any](t *rapid.T, label string, xs []T) T {
 	return xs[rapid.IntRange(0, len(xs)-1).Draw(t, label)]
@@ -694,6 +695,24 @@ func (g *gen) sanitize(q *Query) {
 		}
 	}
 	fix(q.Filter, false)
+	if g.avoid(sigInvertedJoinDropsConds) {
+		// an explicit _and keeps the planner from inverting the join
+		rel := false
+		walkLeaves(q.Filter, false, func(l *F, _ bool) { rel = rel || (fdef(l.Field).Kind == "rel" && len(l.Path) > 0) })
+		if rel {
+			var explicit func(f *F)
+			explicit = func(f *F) {
+				if f == nil {
+					return
+				}
+				f.Implicit = false
+				for _, k := range f.Kids {
+					explicit(k)
+				}
+			}
+			explicit(q.Filter)
+		}
+	}
 	if len(q.Order) > 0 {
 		inOnOrderKey := false
 		walkLeaves(q.Filter, false, func(l *F, _ bool) {
